@@ -180,6 +180,38 @@ def _job(vec):
     return problems
 
 
+def interleaved_formats(report):
+    """
+    Two data formats that exist at the same time, each created before the other is configured (two CIDs loaded row by row):
+    what a property accepts is the business of the format it is set on -- 'none' is a line delimiter of fixed data only.
+    """
+    from cutplace import data, errors
+    for first, second in (("fixed", "delimited"), ("delimited", "fixed"), ("fixed", "fixed"), ("delimited", "ods")):
+        formats = [data.DataFormat(first), data.DataFormat(second)]
+        for data_format in formats:
+            for value in ("none", "lf", "any"):
+                fresh = data.DataFormat(data_format.format)   # (a third one, created in between)
+                del fresh
+                if data_format.format not in ("fixed", "delimited"):
+                    continue
+                report.replayed += 1
+                try:
+                    probe = data.DataFormat(data_format.format)
+                    other = data.DataFormat(second if data_format.format == first else first)   # created after the probe
+                    probe.set_property("line_delimiter", value)
+                    outcome = "accepted"
+                    del other
+                except errors.InterfaceError:
+                    outcome = "refused"
+                except Exception as error:  # noqa
+                    outcome = "%s: %s" % (type(error).__name__, str(error)[:80])
+                wanted = "accepted" if (value != "none" or data_format.format == "fixed") else "refused"
+                if outcome != wanted:
+                    report.violation("c11", {"interleaved": [first, second], "format": data_format.format, "value": value}, wanted, outcome,
+                                     "line delimiter %r set on a %s format while a %s format created after it exists: %s, must be %s" % (
+                                         value, data_format.format, second if data_format.format == first else first, outcome, wanted))
+
+
 def replay(behaviour, report=None):
     core.import_repo()
     return _job(behaviour)
@@ -220,6 +252,7 @@ def run(tier, report):
                 if not _job(corrupted):
                     core.selftest_failed("C11: a corrupted predicted item delimiter was not noticed")
                 break
+    interleaved_formats(report)
     report.exhaustive = True
     report.assumptions += [
         "spellings the documentation itself makes ambiguous are not asked for: a single digit is a decimal code, white space "
